@@ -3,10 +3,14 @@
 use crate::Prop;
 use std::sync::Arc;
 
+pub mod c01;
+pub mod c02;
+pub mod c03;
 pub mod c19;
+pub mod common;
 
 pub fn all() -> Vec<Arc<dyn Prop>> {
-    vec![Arc::new(c19::C19)]
+    vec![Arc::new(c01::C01), Arc::new(c02::C02), Arc::new(c03::C03), Arc::new(c19::C19)]
 }
 
 pub fn find(id: &str) -> Option<Arc<dyn Prop>> {
@@ -15,7 +19,11 @@ pub fn find(id: &str) -> Option<Arc<dyn Prop>> {
 
 /// Entry point of isolated child processes (`zmqmon child <kind> ...`).
 pub fn child_main(args: &[String]) -> i32 {
-    let _ = args;
-    eprintln!("no child kinds yet");
-    2
+    match args.first().map(|s| s.as_str()) {
+        Some("c03") => c03::child(&args[1..]),
+        _ => {
+            eprintln!("unknown child kind");
+            2
+        }
+    }
 }
